@@ -11,6 +11,7 @@
      ini     zdomain_initial_response / initial_response    vs  iniNum / series
      seq     Sequence.lfilter / convolve                    vs  lfilterPy / convolvePy (recursion at rest)
      dft     x.DFT(N) at every k (numeric N, symbolic N)    vs  dft* closed forms
+     dtft    x.DTFT(Omega) at Omega = pi r (in F_P)         vs  ztSig on the unit circle
 3. Oracle (independent of the model's answers): the Lean *spec* predicates judge the real
    outputs: coefficient n of the expansion of x(z) in 1/z is x[n]; IZT(ZT x)[n] = x[n]; A*h = B;
    the difference equation holds for the returned response; convolution sum; defining DFT sum;
@@ -50,6 +51,8 @@ class Term:
             return head + '%s %d' % (self.kind, self.d)
         if self.kind == 'one':
             return head + 'one'
+        if self.kind in ('gcos', 'gsin'):
+            return head + '%s %d %s %s %s %s' % (self.kind, self.d, fstr(self.bpair[0]), fstr(self.bpair[1]), fstr(self.cpair[0]), fstr(self.cpair[1]))
         return head + '%s %s %s %s %s' % (self.kind, fstr(self.bpair[0]), fstr(self.bpair[1]), fstr(self.cpair[0]), fstr(self.cpair[1]))
 
     def key(self):
@@ -61,7 +64,7 @@ class Term:
 
     @property
     def trig(self):
-        return self.kind in ('cos', 'sin')
+        return self.kind in ('cos', 'sin', 'gcos', 'gsin')
 
     def describe(self):
         return self.tokens()
@@ -74,6 +77,8 @@ def parse_term(tok, idx=0):
         return Term(coef, p, a, kind, d=int(w[4]), idx=idx)
     if kind == 'one':
         return Term(coef, p, a, 'one', idx=idx)
+    if kind in ('gcos', 'gsin'):
+        return Term(coef, p, a, kind, d=int(w[4]), bpair=(Fraction(w[5]), Fraction(w[6])), cpair=(Fraction(w[7]), Fraction(w[8])), idx=idx)
     return Term(coef, p, a, kind, bpair=(Fraction(w[4]), Fraction(w[5])), cpair=(Fraction(w[6]), Fraction(w[7])), idx=idx)
 
 
@@ -121,6 +126,10 @@ class L:
             e = e * S.cos(self.bsyms[t.idx] * n + self.csyms[t.idx])
         elif t.kind == 'sin':
             e = e * S.sin(self.bsyms[t.idx] * n + self.csyms[t.idx])
+        elif t.kind == 'gcos':
+            e = e * S.cos(self.bsyms[t.idx] * n + self.csyms[t.idx]) * self.US(n - t.d)
+        elif t.kind == 'gsin':
+            e = e * S.sin(self.bsyms[t.idx] * n + self.csyms[t.idx]) * self.US(n - t.d)
         return e
 
     def sig_expr(self, terms):
@@ -278,6 +287,13 @@ class FpEval:
                 return pow(pow(bv, FP - 2, FP), -n, FP)
             if b == -1:
                 return self.root(xv)
+            if xv.denominator == 2 and b.is_Integer and int(b) in (2, 3, 6):
+                # positive square roots as sums of roots of unity: sqrt2 = 2cos(pi/4), sqrt3 = 2cos(pi/6)
+                r2 = (zeta(8, 1) + zeta(8, -1)) % FP
+                r3 = (zeta(12, 1) + zeta(12, -1)) % FP
+                base = {2: r2, 3: r3, 6: r2 * r3 % FP}[int(b)]
+                n = xv.numerator
+                return pow(base, n, FP) if n >= 0 else pow(pow(base, FP - 2, FP), -n, FP)
             raise Unsupported('irrational power %s' % e)
         if e.func == S.exp:
             return self.root(self.rat(e.args[0] / (S.I * S.pi)))
@@ -314,13 +330,15 @@ def gen_term(rng, idx, allow_adv=True, allow_trig=True):
     coef = rnd_frac(rng)
     p = rng.choice([0, 0, 0, 1, 1, 2, 3])
     a = rng.choice([Fraction(1), Fraction(1), rnd_frac(rng, -4, 4, 3)])
-    kinds = ['imp', 'step', 'step', 'one'] + (['cos', 'sin'] if allow_trig else [])
+    kinds = ['imp', 'step', 'step', 'one'] + (['cos', 'sin', 'gcos', 'gsin'] if allow_trig else [])
     kind = rng.choice(kinds)
     if kind in ('imp', 'step'):
         d = rng.choice([0, 1, 2, 3, 5] + ([-1, -2, -3] if allow_adv else []) + [rng.randint(0, 6)])
         return Term(coef, p, a, kind, d=d, idx=idx)
     if kind == 'one':
         return Term(coef, p, a, 'one', idx=idx)
+    if kind in ('gcos', 'gsin'):     # sinusoid gated by a delayed step: rule "multiplication with u(n - n0)"
+        return Term(coef, min(p, 1), a, kind, d=rng.choice([0, 1, 2, 2, 3, 4, -1]), bpair=rng.choice(PYTH), cpair=rng.choice(PYTH), idx=idx)
     return Term(coef, min(p, 1), a, kind, bpair=rng.choice(PYTH), cpair=rng.choice(PYTH), idx=idx)
 
 
@@ -494,13 +512,16 @@ def run(chk, replay=None):
         zt_case(terms, 'generated')
 
     # ------------------------------------------------------------------ izt / filter stream
-    def izt_case(b, a, poles):
+    def izt_case(b, a, poles, zform=None):
         newcase()
         key = ('izt', tuple(b), tuple(a))
         bs, as_ = lst(b), lst(a)
         chk.count('izt.poles', 'n=%d repeated=%s' % (len(poles), len(set(poles)) < len(poles)))
         z = Lc.lcapy.discretetime.z
         Hs = sum(Lc.rat(c) * Lc.z ** (-i) for i, c in enumerate(b)) / sum(Lc.rat(c) * Lc.z ** (-i) for i, c in enumerate(a))
+        if zform is not None:          # the same H written as c z**m / (z - p)**k (the shape the code pattern-matches)
+            c_, m_, p_, k_ = zform
+            Hs = Lc.rat(c_) * Lc.z ** m_ / (Lc.z - Lc.rat(p_)) ** k_
         try:
             H = Lc.lcapy.zexpr(Hs)
             h = H.IZT(causal=True)
@@ -517,8 +538,15 @@ def run(chk, replay=None):
             disagree('izt', {'b': bs, 'a': as_, 'lcapy': lst(hv), 'model': mv})
         r = drv.ask1('izt.spec %s %s %s' % (lst(hv), bs, as_))
         if r != 'ok':
-            cex({'kind': 'izt', 'repeated': len(set(poles)) < len(poles)},
-                {'input': {'b': bs, 'a': as_, 'H': str(Hs)}, 'lcapy': {'h': str(h), 'samples': lst(hv)}, 'model': mv,
+            mono = sum(1 for c in b if c != 0) == 1
+            kpow = len(a) - 1
+            shortcut = mono and kpow >= 2 and [c / a[0] for c in a] == poly_from_roots([Fraction(1)] * kpow)
+            key_ = {'kind': 'izt', 'repeated': len(set(poles)) < len(poles)}
+            if shortcut:
+                key_['cause'] = 'unit-step-shortcut-repeated-pole'
+            cex(key_,
+                {'input': {'b': bs, 'a': as_, 'H': str(Hs), 'zform': ([fstr(zform[0]), zform[1], fstr(zform[2]), zform[3]] if zform else None)},
+                 'lcapy': {'h': str(h), 'samples': lst(hv)}, 'model': mv,
                  'spec': 'A*h = B coefficient-wise: ' + r},
                 'inverse z-transform samples do not satisfy A*h = B')
         # filter objects: dlti_filter -> (b', a'), transfer_function, difference_equation, impulse_response
@@ -563,6 +591,15 @@ def run(chk, replay=None):
     for i in (range(budget['izt']) if gen else []):
         b, a, poles = gen_ba(rng, maxpoles=(2 if quick else 3))
         izt_case(b, a, poles)
+    # directed family: H = c z**m / (z - p)**k, i.e. B = c w**j, A = (1 - p w)**k -- the shape of the
+    # "1/(z**m (z - 1)) -> u[n - m]" shortcut of InverseZTransformer.ratfun, simple AND repeated pole, p = 1 and p != 1
+    if gen:
+        for kpow in (1, 2, 3):
+            for j in (0, 1, 2, 3):
+                for pole in (Fraction(1), rnd_frac(rng, -3, 3, 3)):
+                    c = rng.choice([Fraction(1), rnd_frac(rng)])
+                    chk.count('izt.directed', 'p=%s k=%d' % ('1' if pole == 1 else 'other', kpow))
+                    izt_case([Fraction(0)] * j + [c], poly_from_roots([pole] * kpow), [pole] * kpow, zform=(c, kpow - j, pole, kpow))
 
     # ------------------------------------------------------------------ response stream
     def resp_case(b, a, ic, xspec, n1):
@@ -896,6 +933,120 @@ def run(chk, replay=None):
             terms[0].a = Fraction(-1)
         dft_case(terms, N, symbolic, bins)
 
+    # ------------------------------------------------------------------ DTFT stream
+    # x[n] = sum of  coef * n^p * a^n * gate[n] * trig(pi rb n + pi rc)  with gate = delta[n-d] (finite support: the
+    # defining bilateral sum is judged by the Lean spec `dtftSum`) or u[n-d] with |a| < 1 (causal, absolutely summable:
+    # compared with the z-transform closed form of the model on the unit circle).  Everything is evaluated in F_P at
+    # Omega = pi r, where e^{j Omega} is a root of unity.
+    ANG = [Fraction(0), Fraction(1, 2), Fraction(1, 3), Fraction(2, 3), Fraction(1, 4), Fraction(1, 6), Fraction(-1, 3), Fraction(3, 4), Fraction(-1, 6)]
+
+    def dt_tokens(t):
+        (coef, pw, a, gate, d, trig, rb, rc) = t
+        head = '%s %d %s ' % (fstr(coef), pw, fstr(a))
+        if trig is None:
+            return head + ('imp %d' % d if gate == 'imp' else 'step %d' % d)
+        half = fp_of_frac(Fraction(1, 2))
+        inv2i = pow(2 * zeta(4, 1) % FP, FP - 2, FP)
+
+        def cs(r):
+            rt = lambda x: zeta(2 * x.denominator, x.numerator)   # noqa  exp(i pi x)
+            return (rt(r) + rt(-r)) * half % FP, (rt(r) - rt(-r)) * inv2i % FP
+        cb, sb = cs(rb)
+        cc, sc = cs(rc)
+        kind = ('i' if gate == 'imp' else 'g') + trig
+        return head + '%s %d %d %d %d %d' % (kind, d, cb, sb, cc, sc)
+
+    def dt_expr(t):
+        (coef, pw, a, gate, d, trig, rb, rc) = t
+        n = Lc.n
+        e = Lc.rat(coef)
+        if pw:
+            e = e * n ** pw
+        if a != 1:
+            e = e * Lc.rat(a) ** n
+        e = e * (Lc.UI(n - d) if gate == 'imp' else Lc.US(n - d))
+        if trig is not None:
+            arg = S.pi * Lc.rat(rb) * n + S.pi * Lc.rat(rc)
+            e = e * (S.sin(arg) if trig == 'sin' else S.cos(arg))
+        return e
+
+    def dtft_case(terms):
+        newcase()
+        toks = ' ; '.join(dt_tokens(t) for t in terms)
+        key = ('dtft', toks)
+        finite = all(t[3] == 'imp' for t in terms)
+        fam = '+'.join(sorted(set(t[3] + ('*' + t[5] + ('(phase)' if t[7] != 0 else '') if t[5] else '') +
+                                  ('*n' if t[1] else '') + ('*a^n' if t[2] != 1 else '') for t in terms)))
+        chk.count('dtft.family', fam)
+        e = sum((dt_expr(t) for t in terms), S.Integer(0))
+        try:
+            X = Lc.lcapy.nexpr(e).DTFT(Lc.lcapy.Omega)
+            Xs = X.sympy
+        except Exception as ex:   # noqa
+            chk.count('dtft.lcapy-error', type(ex).__name__)
+            chk.case(key, False)
+            return
+        if Xs.has(S.Sum) or Xs.has(S.DiracDelta):
+            chk.count('degenerate', 'dtft-no-plain-closed-form')
+            chk.case(key, False)
+            return
+        Osyms = [s_ for s_ in Xs.free_symbols if s_.name == 'Omega']
+        if Xs.free_symbols - set(Osyms):
+            chk.count('degenerate', 'dtft-free-symbols')
+            chk.case(key, False)
+            return
+        chk.case(key, True)
+        chk.sample({'stream': 'dtft', 'terms': toks, 'expr': str(e)[:160], 'lcapy': str(Xs)[:200]})
+        sine_phase = any(t[5] == 'sin' and t[7] != 0 for t in terms)
+        for r in rng.sample(ANG, 3 if quick else 5):
+            env = {s_: S.pi * Lc.rat(r) for s_ in Osyms}
+            try:
+                lv = FpEval(Lc, env).ev(Xs)
+            except ZeroDivisionError:
+                chk.count('degenerate', 'dtft-pole-hit')
+                continue
+            except Unsupported as ex:
+                chk.count('degenerate', 'dtft-unevaluable:' + str(ex)[:30])
+                return
+            zz = zeta(2 * r.denominator, r.numerator)            # e^{j Omega}
+            qq = zeta(2 * r.denominator, -r.numerator)           # e^{-j Omega}
+            mv = drv.ask1('dtft.model %d | %s' % (zz, toks))
+            if mv == 'undef':
+                chk.count('degenerate', 'dtft-pole-hit')
+                continue
+            chk.coverage['correspondence']['compared'] += 1
+            if int(mv) != lv:
+                disagree('dtft', {'terms': toks, 'expr': str(e), 'Omega': 'pi*%s' % fstr(r), 'lcapy_mod_P': lv, 'model_mod_P': int(mv)})
+            if finite:
+                lo = min(t[4] for t in terms)
+                ln = max(t[4] for t in terms) - lo + 1
+                sv = int(drv.ask1('dtft.spec %d %d %d | %s' % (lo, ln, qq, toks)))
+            else:
+                sv = int(mv)      # causal, |a| < 1: the model's closed form (zt_closed_form_sound + anchor on the circle)
+            if lv != sv:
+                cex({'kind': 'dtft', 'finite_support': finite, 'sine_with_phase': sine_phase},
+                    {'input': {'expr': str(e), 'terms': toks, 'Omega': 'pi*%s' % fstr(r)}, 'lcapy': str(Xs),
+                     'lcapy_value_mod_P': lv, 'spec_value_mod_P': sv, 'P': FP,
+                     'spec': ('X(Omega) = sum_n x[n] exp(-j Omega n) over the finite support' if finite else
+                              'X(Omega) = X(z) at z = exp(j Omega) for the causal absolutely summable sequence') +
+                             ', compared in F_P under exp(j pi/M) -> zeta(2M, 1)'},
+                    'DTFT differs from the defining sum on the unit circle')
+                return
+
+    for i in (range(40 if quick else 400) if gen else []):
+        nt = rng.choice([1, 1, 2, 3]) if i % 2 == 0 else 1
+        terms = []
+        for _ in range(nt):
+            trig = rng.choice([None, 'sin', 'sin', 'cos'])
+            rb = rng.choice([Fraction(1, 3), Fraction(1, 2), Fraction(2, 3), Fraction(1, 4), Fraction(1, 6)])
+            rc = rng.choice([Fraction(0), Fraction(1, 4), Fraction(1, 6), Fraction(1, 3), Fraction(-1, 3), Fraction(-1, 6)])
+            if i % 2 == 0:       # finite support
+                terms.append((rnd_frac(rng), rng.choice([0, 0, 1]) if trig is None else 0, Fraction(1), 'imp', rng.randint(-3, 5), trig, rb, rc))
+            else:                # causal geometric, |a| < 1
+                a = Fraction(rng.choice([1, -1, 2, -2]), rng.choice([3, 4, 5]))
+                terms.append((rnd_frac(rng), rng.choice([0, 0, 1]), a, 'step', rng.randint(0, 3), trig, rb, rc))
+        dtft_case(terms)
+
     # ------------------------------------------------------------------ replay of one recorded case
     if replay is not None:
         import json
@@ -904,7 +1055,11 @@ def run(chk, replay=None):
         if kind in ('zt', 'izt-zt'):
             zt_case(parse_sig(inp['terms']), 'replay')
         elif kind in ('izt', 'dlti_filter', 'difference_equation'):
-            izt_case(flist(inp['b']), flist(inp['a']), [])
+            bb, aa = flist(inp['b']), flist(inp['a'])
+            zf = None
+            if inp.get('zform'):
+                zf = (Fraction(inp['zform'][0]), int(inp['zform'][1]), Fraction(inp['zform'][2]), int(inp['zform'][3]))
+            izt_case(bb, aa, [], zform=zf)
         elif kind == 'response':
             xt = inp['x'].split()
             xs = ('lit', int(xt[1]), flist(xt[2])) if xt[0] == 'lit' else ('sig', parse_sig(inp['x'][4:]))
